@@ -794,11 +794,13 @@ pub enum Source {
     NullableChain,
     Big,
     Enumerated,
+    Echo,
 }
 
 impl Source {
     pub fn name(&self) -> &'static str {
         match self {
+            Source::Echo => "echo (doubled terminals, self-embedding, nullable)",
             Source::Corpus => "corpus",
             Source::CorpusEmbedded => "corpus-embedded",
             Source::Random => "random-reduced",
@@ -826,6 +828,11 @@ pub fn grammar_for_case(rng: &mut Rng, index: u64) -> (Source, Cfg, Vec<bool>) {
         cfg = c;
         force = f;
     }
+    if source != Source::Big && rng.chance(0.05) {
+        let (c, f) = pad_to_threshold(&cfg, &force, rng);
+        cfg = c;
+        force = f;
+    }
     if rng.chance(0.5) {
         let (c, f) = permute_declarations(&cfg, &force, rng);
         return (source, c, f);
@@ -844,10 +851,83 @@ pub fn small_grammar(rng: &mut Rng) -> (Source, Cfg, Vec<bool>) {
     }
 }
 
+/// Tiny grammars over 2-3 terminals in which one nonterminal has alternatives with the SAME terminal
+/// several times in a row, embeds itself between terminals and may be empty (`N -> q q a a | q N q |`):
+/// states with self-loops on a terminal, the same rule at several dots in one state, lookaheads created
+/// by a state's own closure.  Mostly conflicting: the subject of C11 (and of C04's "conflict" side).
+pub fn echo_cfg(rng: &mut Rng) -> (Cfg, Vec<bool>) {
+    let (q, a, x) = (Sym::T(0), Sym::T(1), Sym::T(2));
+    let n = Sym::N(1);
+    let doubled: Vec<Vec<Sym>> = vec![vec![q, q, a, a], vec![q, q], vec![a, a], vec![q, q, a], vec![q, q, q], vec![q, q, a, a, a], vec![q, q, n, a, a], vec![q, q, n], vec![a, a, q, q]];
+    let embed: Vec<Vec<Sym>> = vec![vec![q, n, q], vec![q, n, a], vec![n, q], vec![q, n], vec![a, n, a], vec![q, n, q, q], vec![n, n], vec![q, q, n, q, q]];
+    let other: Vec<Vec<Sym>> = vec![vec![q, a], vec![a], vec![q], vec![a, q]];
+    let mut rules = vec![];
+    let mut st: Vec<Vec<Sym>> = vec![vec![x, n, a], vec![n, a], vec![x, n], vec![n], vec![x, n, q], vec![a, n, a], vec![x, n, a]];
+    rng.shuffle(&mut st);
+    for r in st.into_iter().take(if rng.chance(0.8) { 1 } else { 2 }) {
+        rules.push(Rule { lhs: 0, rhs: r });
+    }
+    let mut alts: Vec<Vec<Sym>> = vec![];
+    if rng.chance(0.6) {
+        alts.push(vec![]);
+    }
+    let mut d = doubled;
+    rng.shuffle(&mut d);
+    alts.extend(d.into_iter().take(rng.range(1, 2)));
+    if rng.chance(0.85) {
+        alts.push(rng.pick(&embed).clone());
+    }
+    if rng.chance(0.25) {
+        alts.push(rng.pick(&other).clone());
+    }
+    alts.sort();
+    alts.dedup();
+    rng.shuffle(&mut alts);
+    for r in alts {
+        rules.push(Rule { lhs: 1, rhs: r });
+    }
+    // (terminal names decide which of two conflicting actions claims a cell first: the caller shuffles them)
+    (Cfg { nn: 2, nt: 3, rules, start: 0 }, vec![rng.chance(0.5), true])
+}
+
+/// Unused terminals and unreachable nonterminals up to a threshold count (63/64/65, 127/128/129,
+/// 255/256/257): the *declared* counts size tables, bit sets and index types, whether or not the
+/// symbols are used.
+pub fn pad_to_threshold(cfg: &Cfg, force: &[bool], rng: &mut Rng) -> (Cfg, Vec<bool>) {
+    let mut c = cfg.clone();
+    let mut f = force.to_vec();
+    let pick = |rng: &mut Rng, now: usize| -> usize {
+        let ts: Vec<usize> = [15usize, 16, 17, 31, 32, 33, 63, 64, 65, 127, 128, 129, 191, 192, 193, 255, 256, 257].iter().copied().filter(|t| *t >= now).collect();
+        if ts.is_empty() {
+            now
+        } else {
+            *rng.pick(&ts)
+        }
+    };
+    if rng.chance(0.8) {
+        let t = pick(rng, c.nt).min(crate::lr::MAX_T - 1);
+        c.nt = c.nt.max(t);
+    }
+    if rng.chance(0.35) {
+        let t = pick(rng, c.nn).min(200);
+        while c.nn < t {
+            // unreachable, productive
+            c.rules.push(Rule { lhs: c.nn, rhs: if c.nt > 0 && rng.chance(0.5) { vec![Sym::T(rng.below(c.nt))] } else { vec![] } });
+            f.push(rng.chance(0.3));
+            c.nn += 1;
+        }
+    }
+    (c, f)
+}
+
 fn grammar_for_case_inner(rng: &mut Rng) -> (Source, Cfg, Vec<bool>) {
     if rng.below(160) == 0 {
         let (c, f) = big_cfg(rng, 400);
         return (Source::Big, c, f);
+    }
+    if rng.below(14) == 0 {
+        let (c, f) = echo_cfg(rng);
+        return (Source::Echo, c, f);
     }
     match rng.below(26) {
         24..=25 => {
